@@ -14,7 +14,7 @@ from ..templates import (TemplateHooks, generic_instances, make_hole, to_term,
                          show)
 from ..galg import (GraphHooks, evaluate_set, all_graphs, all_subsets,
                     NotEvaluable, GraphError, CG)
-from ..report import Finding, RuleResult, floor
+from ..report import Finding, RuleResult, floor, Attempts
 from . import c05
 
 PROP = 'C01'
@@ -333,6 +333,15 @@ def rule_ctl3(prog, labeller, table, tier):
             I, res, L, hooks = summarise_handler(prog, labeller, handler,
                                                  key, val, K)
             outs = []
+            # a path that enters a handler through an implicit exception of
+            # the try body: the exception that can actually occur (add_edge /
+            # add_node on an existing member, per the documented API) is part
+            # of the evaluation model of the normal path (strict primitives)
+            normal = [(p, v) for (p, v) in res
+                      if not any(isinstance(c, App) and c.op == 'implicit_exc'
+                                 for (c, pol) in p.pc)]
+            if normal:
+                res = normal
             for (p, v) in res:
                 if isinstance(v, Raise):
                     r.fail(Finding(
@@ -394,7 +403,13 @@ def rule_ctl3(prog, labeller, table, tier):
                     if not isinstance(lo, frozenset):
                         lo = hi = 'not a set: %r' % (lo,)
                 except GraphError as e:
-                    counter = (g, P, labels, 'raises: %s' % e, want)
+                    aborts = [ev for ev in p.log if ev.kind == 'loop-abort']
+                    counter = (g, P, labels, 'raises: %s%s' % (e, (
+                        ' -- caught by a handler placed around the loop '
+                        '(line %s): the remaining iterations are skipped, the '
+                        'result depends on the iteration order' %
+                        getattr(aborts[0].node, 'lineno', '?'))
+                        if aborts else ''), want)
                     break
                 if lo != want or hi != want:
                     got = hi if hi != want else lo
@@ -494,15 +509,21 @@ def rule_ctl5(prog, entry, labeller, memo_ok, why):
 
 
 def run(prog, tier, seed):
+    T = Attempts()
     entry, labeller, memo_ok, why = discover_labeller(prog)
-    r1, table = rule_ctl1(prog, labeller)
-    r2 = rule_ctl2(prog, tier)
-    r3 = rule_ctl3(prog, labeller, table, tier)
-    r5 = rule_ctl5(prog, entry, labeller, memo_ok, why)
+    r1, table = T(rule_ctl1, prog, labeller, _n=2)
+    r2 = T(rule_ctl2, prog, tier)
+    if table is not None:
+        r3 = T(rule_ctl3, prog, labeller, table, tier)
+    else:
+        r3 = None
+        T.skipped('R-CTL-3')
+    r5 = T(rule_ctl5, prog, entry, labeller, memo_ok, why)
     from . import c09
-    r5b = c09.rule_rt4(prog, PROP, 'R-CTL-5b', langs=('CTL',))
-    r5b.title = ('memo key (printed form in CTL notation) is injective: two '
-                 'CTL trees never share a memo entry')
+    r5b = T(c09.rule_rt4, prog, PROP, 'R-CTL-5b', langs=('CTL',))
+    if r5b is not None:
+        r5b.title = ('memo key (printed form in CTL notation) is injective: '
+                     'two CTL trees never share a memo entry')
     expl = ('The CTL labeller is discovered from CTL.modelcheck and '
             'interpreted abstractly per formula shape: (1) every restricted '
             'shape is handled directly and every other shape is rewritten '
@@ -522,4 +543,4 @@ def run(prog, tier, seed):
                    'memo key injectivity: printer grammar of the CTL notation '
                    'is LR(1) over canonical tokens (atoms identifier-style, '
                    'not reserved words)']
-    return [r1, r2, r3, r5, r5b], expl, assumptions, {}
+    return T.results(r1, r2, r3, r5, r5b), expl, assumptions, T.extra()
